@@ -5,7 +5,7 @@ import ast
 
 from ..program import AnalysisError, walk_local, dotted
 from ..analysis import Spec, src, class_const, const_value
-from ..rules import (positional_args, canon, inside, before, GWF, EXC, mpt, need_func, stores_to, raise_class,
+from ..rules import (value_leaves, positional_args, canon, inside, before, GWF, EXC, mpt, need_func, stores_to, raise_class,
                      parent_map, kw, is_const, eval_atom, UNKNOWN,
                      explicit_exits)
 from . import common
@@ -183,19 +183,16 @@ def find_comment_rules(prog, an, rep):
     head = c.stmt_node[id(loop)]
     user, sw, mh = f.params[1], f.params[2], f.params[3]
     it = loop.iter
-    ok_it = False
-    if isinstance(it, ast.Name):
-        vals = [v for _, v in stores_to(f, it.id)]
-        ok_it = bool(vals) and all(
-            v is not None and (
-                src(v) == 'reversed(%s.comments)' % f.params[0] or
-                (isinstance(v, ast.Call) and
-                 (dotted(v.func) or '').endswith('islice') and
-                 src(v.args[0]) == it.id and len(v.args) == 3 and
-                 is_const(v.args[1], 0))) for v in vals) and any(
-            src(v) == 'reversed(%s.comments)' % f.params[0] for v in vals)
-    else:
-        ok_it = src(it) == 'reversed(%s.comments)' % f.params[0]
+    # whatever local / slice / conditional expression it goes through, what
+    # is iterated is reversed(<pr>.comments)
+    leaves = value_leaves(f, it, through=('islice',))
+    ok_it = bool(leaves) and all(
+        v is not None and src(v) == 'reversed(%s.comments)' % f.params[0]
+        for v in leaves)
+    for x in walk_local(f.node, include_root=False):
+        if isinstance(x, ast.Call) and \
+                (dotted(x.func) or '').endswith('islice'):
+            ok_it = ok_it and len(x.args) == 3 and is_const(x.args[1], 0)
     rep.check(ok_it, R, f.qname + ': newest comment first', f.where(loop),
               'loop iterates %s' % src(it), detail=src(it))
     # truth table over (author is robot, text starts with msg, max_history)
